@@ -26,6 +26,27 @@ class PByte(KBits):
         return 'B%d%s' % (self.idx, KBits.__repr__(self)[5:] if (self.mask or self.cleared) else '')
 
 
+class Limb:
+    """A u64 limb of a field-element representation: 8 input bytes, most significant first."""
+    __slots__ = ('bytes',)
+
+    def __init__(self, bytes_):
+        self.bytes = list(bytes_)
+
+    def __repr__(self):
+        return 'Limb(%r)' % (self.bytes,)
+
+
+def repr_bytes(v):
+    """Wire-order bytes of a structured repr value (Agg[Agg[limbs little-endian]]), or None."""
+    if isinstance(v, Agg) and len(v.items) == 1 and isinstance(v.items[0], Agg) and v.items[0].items and all(isinstance(x, Limb) for x in v.items[0].items):
+        out = []
+        for l in reversed(v.items[0].items):
+            out.extend(l.bytes)
+        return out
+    return None
+
+
 class DecoderRun2:
     def __init__(self, fx, path, nbytes, flags, own_unchecked=None):
         self.fx = fx
@@ -41,6 +62,15 @@ class DecoderRun2:
     def binop_hook(self, op, a, b):
         if b is None:
             return None
+        if isinstance(a, Limb) and isinstance(b, Int) and op in ('BitAnd', 'BitOr'):
+            out = []
+            for j, x in enumerate(a.bytes):
+                kb = (b.v >> (8 * (7 - j))) & 0xff
+                r = exp.kbits_binop(op, x, Int(kb, 8)) if isinstance(x, KBits) else (Int((x.v & kb) if op == 'BitAnd' else (x.v | kb), 8) if isinstance(x, Int) else TOP)
+                if isinstance(r, KBits) and isinstance(x, PByte):
+                    r = PByte(x.idx, r.mask, r.val, r.cleared)
+                out.append(r)
+            return Limb(out)
         pa, pb = isinstance(a, PByte), isinstance(b, PByte)
         if not (pa or pb):
             return None
@@ -80,7 +110,12 @@ class DecoderRun2:
             idxs = [x.idx if isinstance(x, PByte) else None for x in items] if items is not None else None
             lost = [(x.idx, x.cleared) for x in (items or []) if isinstance(x, PByte) and x.cleared]
             pth.events.append(('read_be', k, idxs, lost, where))
-            fr.store_through(args[0], ('repr', k))
+            if items is not None and len(items) >= 8 and len(items) % 8 == 0 and len(items) == 48:
+                nl = len(items) // 8
+                limbs = [Limb(items[(nl - 1 - i) * 8:(nl - i) * 8]) for i in range(nl)]
+                fr.store_through(args[0], Agg([Agg(limbs)], ('repr', k)))
+            else:
+                fr.store_through(args[0], ('repr', k))
             # reading 48 bytes from a shorter source fails
             okv = items is not None and len(items) >= 48
             fr.storev(dest, Opt('none' if okv else 'some', Agg([]), ('read_be', k)))
@@ -88,6 +123,16 @@ class DecoderRun2:
         if name == 'from_repr' and trait == 'ff::PrimeField':
             v = fr.operand(args[0])
             k = v[1] if isinstance(v, tuple) and v and v[0] == 'repr' else None
+            if isinstance(v, Agg) and v.kind and v.kind[0] == 'repr':
+                k = v.kind[1]
+                bs = repr_bytes(v)
+                if bs is None:
+                    k = None
+                else:
+                    # the limbs may have been masked after the read: input bits cleared untested are reported like those of the read
+                    lost2 = [(x.idx, x.cleared) for x in bs if isinstance(x, PByte) and x.cleared]
+                    idx2 = [x.idx if isinstance(x, PByte) else None for x in bs]
+                    pth.events.append(('repr-at-range-check', k, idx2, lost2, where))
             pth.events.append(('from_repr', k, c.get('self_ty'), where))
             fr.storev(dest, Opt(None, Either(('fe', k, c.get('self_ty')), ('range-error', k)), ('from_repr', k)))
             return True
